@@ -431,6 +431,11 @@ Proof.
   destruct (gw_st s); try destruct (len (pack p) <=? MaxPacketLen); cbn; exact A.
 Qed.
 
+Lemma InvA_sn_send_now cfg s p : InvA cfg s -> InvA cfg (st_of (sn_send_now s p)).
+Proof.
+  intros H. unfold sn_send_now. destruct (len (pack p) <=? MaxPacketLen); cbn [st_of ok stop fst]; exact H.
+Qed.
+
 Lemma InvA_send_all cfg ps : forall s, InvA cfg s -> InvA cfg (st_of (send_all s ps)).
 Proof.
   induction ps as [|[o p] ps IH]; intros s H; cbn [send_all]; [exact H|].
@@ -520,7 +525,7 @@ Proof.
       cbv zeta.
       match goal with |- Inv cfg (st_of ?r) => enough (HA : InvA cfg (st_of r)) by (destruct HA as [HA _]; exact HA) end.
       apply (P_andthen (InvA cfg)).
-      * cbn [sn_send]. apply InvA_sn_send_owned. split.
+      * apply InvA_sn_send_now. split.
         -- destruct (negb (gw_keepalive s =? 0) && (gw_keepalive s <? dur)); inv_split; unfold Inv; cbn; rewrite Hacc in *;
              (split; [|split; [|split]]); eauto with inv.
         -- destruct (negb (gw_keepalive s =? 0) && (gw_keepalive s <? dur)); cbn; exact Hacc.
@@ -690,6 +695,9 @@ Proof. intros HQ. split; [apply sn_send_owned_mq|apply sn_send_owned_sn, HQ]. Qe
 Lemma sn_send_out P (Q : packet -> Prop) s p : Q p -> all_out P Q (outs_of (sn_send s p)).
 Proof. apply sn_send_owned_out. Qed.
 
+Lemma sn_send_now_out P (Q : packet -> Prop) s p : Q p -> all_out P Q (outs_of (sn_send_now s p)).
+Proof. intros HQ. split; [apply sn_send_now_mq|apply sn_send_now_sn, HQ]. Qed.
+
 Lemma mq_send_out (P : mq_pkt -> Prop) Q s m : P m -> all_out P Q (outs_of (mq_send s m)).
 Proof. intros HP. split; [apply mq_send_mq, HP|apply mq_send_sn]. Qed.
 
@@ -713,6 +721,7 @@ Ltac out_walk :=
     | apply andthen_out; [|intros ?]
     | apply sn_send_out
     | apply sn_send_owned_out
+    | apply sn_send_now_out
     | apply mq_send_out
     | match goal with |- all_out _ _ (outs_of (match ?x with _ => _ end)) => destruct x eqn:? end
     | match goal with |- all_out _ _ (outs_of (if ?x then _ else _)) => destruct x eqn:? end
